@@ -594,9 +594,17 @@ func c07Unit(c *Ctx, st *c07Stats, cre *c07Re, pat string, rtl bool, extra regex
 			}
 		}
 		cs := &Case{Desc: fmt.Sprintf("%s start=%d n=%d", desc, start, n), Class: origin,
-			Key:        fmt.Sprintf("%s|%v|%#x|%s", pat, rtl, int(extra), in),
-			Nontrivial: len(seq) >= 2 && nEmptyAdj+func() int { z := 0; for _, s := range seq { if s.ln == 0 { z++ } }; return z }() > 0,
-			Direct:     strings.Join(d, "; ")}
+			Key: fmt.Sprintf("%s|%v|%#x|%s", pat, rtl, int(extra), in),
+			Nontrivial: len(seq) >= 2 && nEmptyAdj+func() int {
+				z := 0
+				for _, s := range seq {
+					if s.ln == 0 {
+						z++
+					}
+				}
+				return z
+			}() > 0,
+			Direct: strings.Join(d, "; ")}
 		if modelOK && e == nil {
 			cs.ModelLeg = 701
 			cs.ModelIn = append([]int64{b2i(rtl), int64(L), int64(start), int64(n)}, table...)
